@@ -448,6 +448,7 @@ fn base(property: &'static str, tag: u64, run: fn(&mut Ctx) -> Verdict) -> Scena
         run_timeout_s: 30,
         thorough_extra: None,
         warmup: Some(warmup),
+        enumerated: None,
     }
 }
 
@@ -529,6 +530,11 @@ fn scenarios() -> Vec<Scenario> {
                 "sophia_rio::model (Trusted term wrappers)",
                 "rio_turtle, rio_xml, quick-xml, json-ld, json-syntax, oxiri",
             ],
+            enumerated: Some(simcore::driver::Enumerated {
+                count: c08::enum_count,
+                run: c08::run_enum,
+                what: "every single-edit mutation (truncation, deletion, each of the 8 bit flips, insertion of each of 44 structural bytes) at every byte position of every hand-corpus document, for the parser of that syntax, with and without a base IRI",
+            }),
             ..base("C08", 0xC08, c08::run_c08)
         },
         Scenario {
@@ -579,6 +585,7 @@ fn scenarios() -> Vec<Scenario> {
         run_timeout_s: 30,
         thorough_extra: None,
         warmup: Some(warmup),
+        enumerated: None,
     }]
 }
 
